@@ -168,7 +168,7 @@ def run(P, R):
     ws = [a for a in own_nodes(su.node) if isinstance(a, ast.Assign) and ast.unparse(a.targets[0]) == 'self._status_tree']
     R.require(len(ws) == 1, 'status_formula setter: one write of _status_tree expected')
     fs = {tuple(f) for f in fms.at(ws[0])}
-    R.check(r2, ('len(tree.body) != 1', False) in fs, 'exactly one statement', 'single-expr|length', su.loc(),
+    R.check(r2, ('len(tree.body) == 1', True) in fs, 'exactly one statement', 'single-expr|length', su.loc(),
             'the status_formula setter stores a tree without refusing len(tree.body) != 1')
     ok = ('type(tree.body[0]) is ast.Expr', True) in fs or ('isinstance(tree.body[0], ast.Expr)', True) in fs
     R.check(r2, ok, 'that statement is an expression', 'single-expr|type', su.loc(),
@@ -351,7 +351,7 @@ def run(P, R):
             'possible_major_failure is set under %s' % [sorted(tuple(f) for f in fmr.at(a)) for a in pm])
     cf = [a for a in own_nodes(ur.node) if isinstance(a, ast.AugAssign) and ast.unparse(a.target) == 'self.major_failure']
     ok = len(cf) == 1 and isinstance(cf[0].op, ast.BitOr) and ast.unparse(cf[0].value) == 'possible_major_failure' and \
-        {tuple(f) for f in fmr.at(cf[0])} == {('self.state != ApplicationStates.STOPPED', True),
+        {tuple(f) for f in fmr.at(cf[0])} == {('self.state == ApplicationStates.STOPPED', False),
                                                ('self.state == ApplicationStates.STOPPED', False)}
     R.check(r6, ok, 'confirmed exactly when the application is not STOPPED', 'status|confirm', ur.loc(),
             'the possible major failure is confirmed under %s (expected `self.state != STOPPED`)' %
